@@ -275,7 +275,14 @@ pub fn hostile_case(rng: &mut Rng, tier: crate::scn::Tier, idx: u64, prop: &str,
             };
             if mode == 1 {
                 let e = refcodec::ref_encode(&c.packets[0], sw.fam, &c.style);
-                if rng.chance(1, 4) {
+                if rng.chance(1, 5) {
+                    // two aimed malformations of the same packet at once
+                    if let Some(f) = crate::malform::pair(&c.packets[0], sw.fam, rng.next_u64()) {
+                        c.stream = Bs(f);
+                        c.packets.clear();
+                        c.style = Style::default();
+                    }
+                } else if rng.chance(1, 4) {
                     // one aimed malformation (F12) plus byte-level corruption on top: two faults
                     let mals = crate::malform::enumerate(&c.packets[0], sw.fam);
                     if !mals.is_empty() {
@@ -285,7 +292,7 @@ pub fn hostile_case(rng: &mut Rng, tier: crate::scn::Tier, idx: u64, prop: &str,
                         c.style = Style::default();
                     }
                 }
-                let n = rng.urange(if c.packets.is_empty() { 0 } else { 1 }, 4);
+                let n = if c.packets.is_empty() { rng.urange(0, 2) } else { rng.urange(1, 4) };
                 c.mutations = gen_mutations(rng, e.bytes.len(), &span_bounds(&e.spans), n);
             }
         }
